@@ -259,7 +259,12 @@ def generate(g: Gen):
             try:
                 E = bool_expr(ret, env)
             except NotImplementedError as ex:
-                raise NotGenerated(f"branch {T}: cannot interpret `{str(ex)[:60]}`")
+                # this branch is outside what the extractor reads: ITS obligations are undecided, the other branches are still decided
+                for f, ty in state["FIELDS"].items():
+                    if ty.rstrip("*?") not in NONNODE and (T, f) not in EXEMPT:
+                        g.obligs.append({"name": f"{g.key}:branch:{T}:{f}@L{st.lineno}", "kind": "branch", "line": st.lineno, "backend": "structure", "time_s": 0.0, "status": "undecided",
+                                         "reason": f"the {T} branch returns an expression the extractor cannot interpret ({str(ex)[:60]}); the executed stand-in decides"})
+                continue
             none_node = z3.Const("the_None_node", N)
             NONE_AX = z3.And(z3.Not(hseW(none_node)), z3.Not(hse0(none_node)))
             for f, ty in state["FIELDS"].items():
